@@ -9,6 +9,7 @@ pub mod iters;
 pub mod model;
 pub mod ops;
 pub mod rng;
+pub mod serde_chk;
 pub mod snap;
 pub mod types;
 
@@ -17,6 +18,7 @@ pub fn replay_other(mode: &str, rp: &serde_json::Value, a: &cli::Args, sink: &mu
     let _ = &journal;
     match mode {
         "iters" => iters::replay(rp, a, sink, journal),
+        "serde" => serde_chk::replay(rp, sink),
         _ => {
             eprintln!("replay: unknown mode {}", mode);
             2
@@ -46,6 +48,7 @@ pub fn worker_main() {
         "bfs" => bfs::mode_bfs(&a),
         "iters" => iters::mode_iters(&a),
         "bulk" => bulk::mode_bulk(&a),
+        "serde" => serde_chk::mode_serde(&a),
         other => {
             eprintln!("unknown mode {}", other);
             2
